@@ -358,35 +358,103 @@ def _chase_param(body, local, depth=0):
     return e
 
 
+_STD_SORT = re.compile(r"slice::<impl \[T\]>::sort")
+STABLE_SORTS = ("sort", "sort_by", "sort_by_key", "sort_by_cached_key")
+
+
+def sort_reach(f, M, seen=None):
+    """bodies whose code runs inside the sort method M: M, its closures, and the functions of sort.rs it calls (siblings of the
+    SortOps trait, private helpers), transitively"""
+    seen = seen if seen is not None else {}
+    if M.id in seen:
+        return seen
+    seen[M.id] = M
+    for c in M.closures():
+        seen.setdefault(c.id, c)
+    for body in [M] + M.closures():
+        for _, t, fn in body.calls():
+            cb = f.crate_fn_for_call(fn) if fn else None
+            if cb is None and fn and fn.get("krate") == f.raw["crate"] and (fn.get("trait") or "").endswith("SortOps"):
+                cands = [x for x in f.fn_bodies if x.name == fn["name"] and x.trait_provided and x.trait_head == "SortOps"]
+                cb = cands[0] if len(cands) == 1 else None
+            if cb is not None and cb.kind != "Closure" and cb.file.replace("\\", "/").endswith("sort.rs"):
+                sort_reach(f, cb, seen)
+    return seen
+
+
+def std_sorts(bodies):
+    return [(b, bi, t, fn) for b in bodies for bi, t, fn in b.calls() if fn and _STD_SORT.search(fn["path"])]
+
+
+def _leads_to_sort(f, b, d, t, fn):
+    """the call terminator t of b runs a std sort: directly, inside its crate callee, or inside a closure it is handed"""
+    if fn and _STD_SORT.search(fn["path"]):
+        return True
+    cb = f.crate_fn_for_call(fn) if fn else None
+    if cb is not None and cb.kind != "Closure" and cb.id != b.id and cb.file.replace("\\", "/").endswith("sort.rs") and std_sorts(sort_reach(f, cb).values()):
+        return True
+    def shallow(e):
+        # the argument itself (through references / tuples), not values computed by earlier calls
+        e = strip(e)
+        yield e
+        if e[0] in ("ref", "refmut", "deref"):
+            yield from shallow(e[1])
+        elif e[0] == "agg" and e[1] == "tuple":
+            for z in e[2]:
+                yield from shallow(z)
+    for a in t["args"]:
+        for x in shallow(d.expr(a)):
+            if x[0] == "agg" and x[1] == "closure" and len(x) > 3:
+                cid = x[3]
+                inner = [c for c in f.fn_bodies if c.kind == "Closure" and (c.id == cid or c.id.startswith(cid + "::"))]
+                if std_sorts(inner):
+                    return True
+    return False
+
+
 def r_sortshape(f):
     R = Result("R-SORTSHAPE")
     if "sort" not in cfg_features(f):
         return R, 0
     n = 0
+    # s1 (every entry point): a stable sort method never reaches an unstable std sort, through whatever helpers / siblings
+    for b in f.fn_bodies:
+        if not (b.trait_provided and b.trait_head == "SortOps" and b.kind == "AssocFn" and b.name and b.name.startswith("sort_")):
+            continue
+        n += 1
+        reached = std_sorts(sort_reach(f, b).values())
+        names = sorted({fn["name"] for _, _, _, fn in reached})
+        need_stable = "unstable" not in b.name
+        ok = bool(names) and (not need_stable or all(nm in STABLE_SORTS for nm in names))
+        R.inst(b.ident, "s1 reaches the std sorts %s through its helpers / siblings (stability required: %s)" % (names, "stable" if need_stable else "any"), ok)
+        if not ok:
+            R.fail(b.ident, "s1:reach:%s" % ",".join(names), "%s %s" % (b.ident, ("reaches the unstable std sort(s) %s although it promises a stable order" % [x for x in names if x not in STABLE_SORTS]) if names else "no longer reaches a std slice sort"), b.where())
     for core, want in (("sort_by_row", "sort_by"), ("sort_unstable_by_row", "sort_unstable_by"),
                        ("sort_by_col", "sort_by"), ("sort_unstable_by_col", "sort_unstable_by")):
         b = f.get("SortOps::%s (provided)" % core)
         if b is None:
             raise AnchorMissing("SortOps::%s (public API named in C16/C17)" % core)
         d = Dfx(b)
-        # s1: the side sort is the std sort of matching stability
-        std = [(bi, t, fn) for bi, t, fn in b.calls() if fn and re.search(r"slice::<impl \[T\]>::sort", fn["path"])]
-        names = [fn["name"] for _, _, fn in std]
+        # s1: the side sort is the std sort of matching stability (it may sit in a helper or in a closure handed to one)
+        reach_ = sort_reach(f, b)
+        std_all = std_sorts(reach_.values())
+        std = [(bi, t, fn) for bi, t, fn in b.calls() if _leads_to_sort(f, b, d, t, fn)]
+        names = [fn["name"] for _, _, _, fn in std_all]
         n += 1
         stable_ok = {"sort_by": ("sort_by", "sort_by_key", "sort_by_cached_key"), "sort_unstable_by": ("sort_unstable_by", "sort_unstable_by_key", "sort_by", "sort_by_key", "sort_by_cached_key")}[want]
         # a stable sort satisfies the unstable contract too; the reverse does not hold
-        ok = len(names) == 1 and names[0] in stable_ok
+        ok = len(names) >= 1 and all(nm in stable_ok for nm in names) and bool(std)
         R.inst(b.ident, "s1 side sort %s (stability required: %s)" % (names, "stable" if want == "sort_by" else "any"), ok)
         if not ok:
             R.fail(b.ident, "s1:%s" % ",".join(names), "%s sorts its key line with %s; the %s variant needs %s" % (b.ident, names, "stable" if want == "sort_by" else "unstable", want), b.where(std[0][1]["span"]) if std else b.where())
         # s2: the closure handed to the sort calls the user comparator with (first, second) in order
-        if std:
-            sort_t = std[0][1]
-            clos_e = strip(d.expr(sort_t["args"][1]))
+        if std_all:
+            sort_b, _, sort_t, _ = std_all[0]
+            clos_e = strip(Dfx(sort_b).expr(sort_t["args"][1])) if len(sort_t["args"]) > 1 else ("?",)
             clos = None
             if clos_e[0] == "agg" and clos_e[1] == "closure":
-                # find the closure body by the aggregate's def: match by upvar count & parent
-                clos = _closure_by_def(f, b, clos_e[3])
+                # find the closure body by the aggregate's def
+                clos = f.by_id.get(clos_e[3]) or _closure_by_def(f, f.by_id.get(sort_b.d.get("root"), sort_b), clos_e[3])
             if clos is None:
                 R.inconc(b.ident, "s2: comparator closure not found")
             else:
